@@ -903,10 +903,20 @@ def witness_histories():
 # ---------------------------------------------------------------------------------------------
 # evaluation
 
-def canon_rows(rows):
+def canon_rows(rows, form):
+    """The raw answer as compared with the fresh process.  In a completion list the entries of type
+    module/namespace (imported names, sub-modules of a package) count with name and type only: their
+    module_path is the result of ANOTHER import (zqn4.zqn1 for the entry zqn1 after `zqn4.`), which is
+    probed - and classified - on its own."""
     if isinstance(rows, dict):
         return rows
-    return sorted(tuple(r) for r in rows)
+    out = []
+    for r in rows:
+        r = tuple(r)
+        if form in (F_ATTR, F_STAR) and r[1] in ('module', 'namespace'):
+            r = (r[0], r[1], None, None)
+        out.append(r)
+    return sorted(out, key=repr)
 
 
 def evaluate(ctx, hists, results):
@@ -988,8 +998,8 @@ def evaluate(ctx, hists, results):
                 m_obs, m_fresh, mask = (d[pos], d[pos + 1]), (d[pos + 2], d[pos + 3]), d[pos + 4]
                 pos += 5
                 obs, orc = decoded[qi][ti]
-                raw_o = canon_rows(rr['obs'][ti])
-                raw_f = canon_rows(rr['orc'][ti])
+                raw_o = canon_rows(rr['obs'][ti], form)
+                raw_f = canon_rows(rr['orc'][ti], form)
                 stats['probes'] += 1
                 stats['forms'][FORM_NAMES[form]] = stats['forms'].get(FORM_NAMES[form], 0) + 1
                 ctx.count('hist-' + hist['regime'], (hist['seed'], qi, ti), nontrivial=orc != (0, 0) or obs != (0, 0))
